@@ -1,0 +1,31 @@
+//go:build verif
+// +build verif
+
+package rfmt
+
+import (
+	"reflect"
+	"sync/atomic"
+)
+
+var verifPoolAllocs int64
+
+func init() {
+	prev := ppFree.New
+	ppFree.New = func() interface{} {
+		atomic.AddInt64(&verifPoolAllocs, 1)
+		return prev()
+	}
+}
+
+// VerifPoolAllocs returns the number of printer structs allocated by the pool
+// so far. Only compiled with the "verif" build tag.
+func VerifPoolAllocs() int64 { return atomic.LoadInt64(&verifPoolAllocs) }
+
+// VerifResetSafeTypes empties the registry of safe types.
+func VerifResetSafeTypes() {
+	safeTypeRegistry = map[reflect.Type]bool{}
+}
+
+// VerifClearErrorFn removes the registered error redaction function.
+func VerifClearErrorFn() { redactErrorFn = nil }
